@@ -11,7 +11,88 @@
 #include "vf.hpp"
 using E = VF_E;
 
-int main() {
+// Deep negative space (thorough): EVERY string of length <= L over the bytes that occur in the type's own spellings, L the
+// largest depth whose string count stays under the budget, walked depth-first in one reused buffer. Oracle: a trie of the
+// table keys built here (a string is accepted iff the walk ends on a terminal node), independent of the lookup under test.
+struct Trie {
+  struct Node {
+    int next[256];
+    int value = -1000;
+    Node() { for (int& n : next) n = -1; }
+  };
+  std::vector<Node> nodes{Node()};
+  void add(const std::string& k, int v) {
+    int cur = 0;
+    for (unsigned char c : k) {
+      if (nodes[cur].next[c] < 0) {
+        nodes[cur].next[c] = (int)nodes.size();
+        nodes.emplace_back();
+      }
+      cur = nodes[cur].next[c];
+    }
+    nodes[cur].value = v;
+  }
+};
+static Trie trie;
+static std::vector<unsigned char> deep_al;
+static char deep_buf[64];
+static long long deep_n = 0, deep_keys = 0, deep_bad = 0;
+static void deep_visit(int len, int node) {
+  // node: trie node reached by deep_buf[0..len), -1 when the prefix has left the trie
+  const auto got = PhQ::ParseEnumeration<E>(std::string_view(deep_buf, (size_t)len));
+  const int want = node >= 0 ? trie.nodes[node].value : -1000;
+  deep_n++;
+  if (want != -1000) deep_keys++;
+  const int g = got.has_value() ? (int)static_cast<int8_t>(got.value()) : -1000;
+  if (g != want && deep_bad++ < 5) {
+    std::string hexs;
+    for (int i = 0; i < len; i++) {
+      char b[4];
+      std::snprintf(b, sizeof b, "%02x", (unsigned char)deep_buf[i]);
+      hexs += b;
+    }
+    vf::viol(std::string("negative-space|") + VF_ENAME + "|" + hexs, "{\"string_hex\":\"" + hexs + "\",\"string\":" + vf::jstr(std::string(deep_buf, (size_t)len)) + ",\"is_table_key\":" +
+                                                                          (want != -1000 ? "true" : "false") + ",\"parsed\":" + (g == -1000 ? std::string("null") : std::to_string(g)) + ",\"walk\":\"deep\"}");
+  }
+}
+static void deep_walk(int len, int node, int maxlen) {
+  deep_visit(len, node);
+  if (len == maxlen) return;
+  for (unsigned char c : deep_al) {
+    deep_buf[len] = (char)c;
+    deep_buf[len + 1] = 'Z';
+    deep_walk(len + 1, node >= 0 ? trie.nodes[node].next[c] : -1, maxlen);
+  }
+}
+static int deep_main(int part, int parts, double budget) {
+  std::set<unsigned char> sigma;
+  for (const auto& [s, v] : PhQ::Internal::Spellings<E>) {
+    trie.add(std::string(s), (int)static_cast<int8_t>(v));
+    for (unsigned char c : s) sigma.insert(c);
+  }
+  deep_al.assign(sigma.begin(), sigma.end());
+  int L = 1;
+  while (std::pow((double)deep_al.size(), L + 1) <= budget && L < 12) L++;
+  if (part == 0) deep_visit(0, 0);
+  for (size_t i = 0; i < deep_al.size(); i++) {
+    if ((int)(i % (size_t)parts) != part) continue;
+    deep_buf[0] = (char)deep_al[i];
+    deep_buf[1] = 'Z';
+    deep_walk(1, trie.nodes[0].next[deep_al[i]], L);
+  }
+  vf::stat("deep_strings", deep_n);
+  vf::stat("deep_keys_accepted", deep_keys);
+  vf::stat("neg_strings", deep_n);
+  vf::stat("neg_nonkeys", deep_n - deep_keys);
+  if (part == 0) {
+    vf::stat("deep_types");
+    vf::note("deep negative space of " + std::string(VF_ENAME) + ": alphabet " + std::to_string(deep_al.size()) + " bytes, every string up to length " + std::to_string(L));
+  }
+  return 0;
+}
+
+int main(int argc, char** argv) {
+  if (argc >= 5 && std::string(argv[1]) == "deep") return deep_main(std::atoi(argv[2]), std::atoi(argv[3]), std::atof(argv[4]));
   const bool thorough = std::getenv("VERIF_TIER") && std::string(std::getenv("VERIF_TIER")) == "thorough";
   std::vector<std::pair<std::string, E>> keys;
   for (const auto& [s, v] : PhQ::Internal::Spellings<E>) keys.emplace_back(std::string(s), v);
